@@ -22,8 +22,8 @@ CHECKS = [
       technique="deterministic simulation: 2-16 client tasks on one shared JwkMemStore/KeyIdMemstore under a seeded executor (tape picks the next task and every hook yield), per-object linearizability check of the recorded history against a sequential map model plus direct cryptographic clauses",
       text="Seeded search over client scripts and interleavings at the lock-acquisition and critical-section hook points of the real in-memory stores (real tokio RwLock); oracle: linearizability per key id / per method digest against the sequential contract, exactly one winner among racing insert_key_id calls, signatures verify under the stored key and under no other stored key, generate output public-only with kid = RFC 7638 thumbprint and requested alg, fresh key ids, invalid inserts refused, no deadlock/lost wake-up.",
       note="Interleavings are explored at await points (hooks + lock waits) on a single-threaded executor; preemption between non-awaiting statements is covered only by the thorough tier's Miri runs (real OS threads on the un-hooked stores under Miri's seeded scheduler, 4 thread counts x 16 seeds). OS randomness is replaced through the cfg hooks. StrongholdStorage is exercised sequentially only (2 000 seeded histories on the real store in the thorough tier); its internals are outside the simulator."),
- dict(id="C09", engine="stor", level="fault_enumeration", design="§4.1, §5 C09",
-      technique="deterministic simulation with fault injection at the JwkStorage/KeyIdStorage seams: per storage-backed call a tape-drawn fault mask over storage-call occurrences, seeded yields deciding the completion order of the joined deletes, optional concurrent bystander; before/after snapshots of document and both stores against a reference model",
+ dict(id="C09", engine="stor", level="fault_enumeration", design="§4.1, §5 C09, §11.5",
+      technique="deterministic simulation with fault injection at the JwkStorage/KeyIdStorage seams: per storage-backed call a tape-drawn fault mask over storage-call occurrences (clean failures, and dirty failures - effect taken, error reported - of insert_key_id / delete_key_id / delete), seeded yields deciding the completion order of the joined deletes, optional concurrent bystander; before/after snapshots of document and both stores against a reference model",
       text="Seeded search over document histories x fault masks (every subset of the <=4 storage calls of generate_method / purge_method failing cleanly) x join orders x document type x target kind (embedded / general-purpose with 0,1,>=2 references / dangling-only / absent); after every call: Ok => method resolves in scope, key id recorded, key exists, signing verifies, nothing else changed; Err => document (order-insensitive) and both stores equal the pre-state; UndoOperationFailed licenses exactly the named stray. The realised (op, doc type, target, refs, call/fault vector, join order, outcome) cells are counted in the evidence.",
       note="Main engine: failures injected are clean failures (error returned, store not altered), 7 key-id and 8 key-store error kinds. Thorough tier also: generate_method / purge_method over the REAL StrongholdStorage (sim-stronghold c09, 3000 histories) with the write of the snapshot file failing at tape-chosen occurrences through the guarded hook identity_stronghold::verif_hooks - an error AFTER the in-memory effect, what a full disk does to that store; judged through exists / get_key_id / signing / number of key-id entries (a key created in memory whose id no caller learnt is not observable and not judged). Allocation failure is not simulated. After an error the document must equal its pre-state exactly (order included); after success the set of entries is compared."),
  dict(id="C04", engine="stor", level="exploration", design="§4.1, §5 C04",
@@ -80,7 +80,7 @@ def main():
         {"name":"res","path":"sim/src/engines/res.rs","serves_properties":["C20"],"kind_free_text":"deterministic simulation of the real Resolver under a seeded executor with gated handler futures"},
       ],
       "checks": [],
-      "notes": "All checks: bin/check <ID> <quick|thorough>; replay: bin/check --replay <file>. Exit 0 held, 1 VIOLATION, 2 harness error. VERIF_SEED seeds the batch (default fixed 0x1D5EED). Genuine defects that are recorded rather than repaired are listed in known_findings.json (findings); the checks of C02, C03, C04, C14, C16 and C20 print one KNOWN-FINDING line each for them and exit 0 (12 findings: C02 1, C03 1, C04 3, C14 1, C15 1 (Stronghold tier, thorough), C16 4, C20 1 - one of the C16 lines comes from a child-process crash probe, DESIGN 11.1); the 'fixed' list of that file records the 53 fix: commits in /repo and suppresses nothing. C09 thorough also runs generate_method / purge_method over the real StrongholdStorage with failing snapshot writes (sim-stronghold c09), C15 thorough the Stronghold sequential tier and the Miri thread tier. The simulator builds identity_storage with the jpt-bbs-plus feature (BBS+ keys in the shipped store). See DESIGN.md (7.1 findings, 11 corrections, 12 seeded-change campaign: 164 confirmed changes (161 caught by the quick check of their property, 3 documented) kept under seeded/, sub-agents' reports of genuine defects under seeded/genuine/, tools/seeded_regress.sh re-evaluates them in a scratch worktree).",
+      "notes": "All checks: bin/check <ID> <quick|thorough>; replay: bin/check --replay <file>. Exit 0 held, 1 VIOLATION, 2 harness error. VERIF_SEED seeds the batch (default fixed 0x1D5EED). Genuine defects that are recorded rather than repaired are listed in known_findings.json (findings); the checks of C02, C03, C04, C14, C16 and C20 print one KNOWN-FINDING line each for them and exit 0 (12 findings: C02 1, C03 1, C04 3, C14 1, C15 1 (Stronghold tier, thorough), C16 4, C20 1 - one of the C16 lines comes from a child-process crash probe, DESIGN 11.1); the 'fixed' list of that file records the 54 fix: commits in /repo and suppresses nothing. C09 thorough also runs generate_method / purge_method over the real StrongholdStorage with failing snapshot writes (sim-stronghold c09), C15 thorough the Stronghold sequential tier and the Miri thread tier. The simulator builds identity_storage with the jpt-bbs-plus feature (BBS+ keys in the shipped store). See DESIGN.md (7.1 findings, 11 corrections, 12 seeded-change campaign: 164 confirmed changes (161 caught by the quick check of their property, 3 documented) kept under seeded/, sub-agents' reports of genuine defects under seeded/genuine/, tools/seeded_regress.sh re-evaluates them in a scratch worktree).",
       "not_applicable": [],
     }
     engines = {}
